@@ -7,6 +7,7 @@ import (
 	"fmt"
 	"math"
 	"math/big"
+	"os"
 	"regexp"
 	"strings"
 
@@ -259,6 +260,20 @@ func b2t2b(c *vm.Ctx, r *vm.Rand, g *nbtgen.G, i int) {
 				c.Cover("b2t.text-independently-read-equal")
 			}
 		default:
+			if ref.IfAccepted != nil {
+				// the text uses constructs a reader may refuse (the writer's [I;5I]) but that have one reading: the
+				// independent reading is still there to be compared
+				d := refnbt.Equal(ref.IfAccepted, tree, refnbt.Opts{EmptyListElemFree: true})
+				if d != "" && ref.IfAcceptedAlt != nil && refnbt.Equal(ref.IfAcceptedAlt, tree, refnbt.Opts{EmptyListElemFree: true}) == "" {
+					d = ""
+				}
+				if d != "" {
+					c.Violation("b2t/writer-text-denotes-other-value/"+diffClass(d), "independent reading of the writer's text ("+ref.Reason+") differs from the value: "+d, w2())
+				} else {
+					c.Cover("b2t.text-independently-read-equal.refusable-construct-with-one-reading")
+				}
+				break
+			}
 			c.Cover("b2t.text-lenient")
 			c.CoverN("b2t.text-lenient:"+reasonClass(ref.Reason), 1)
 		}
@@ -286,6 +301,14 @@ func b2t2b(c *vm.Ctx, r *vm.Rand, g *nbtgen.G, i int) {
 		c.Cover("b2t2b.roundtrip")
 		if text == string(sm) {
 			streamOfTwo(c, i, doc, text, network, name, tree, wit)
+			if rs == text {
+				if i%4 == 0 && len(doc) <= 4000 {
+					b2tNested(c, i, tree, text, network, wit)
+				}
+				if len(doc) <= 500 {
+					poolAdd(&poolB2T, convPair{text: text, doc: doc, network: network, name: name}, i)
+				}
+			}
 		}
 		for f := range feats {
 			c.Cover("doc." + f)
@@ -360,6 +383,9 @@ func t2b(c *vm.Ctx, r *vm.Rand, g *nbtgen.G, i int) {
 		c.Cover("text." + f)
 	}
 	c.Cover("t2b.agree")
+	if len(text) <= 500 {
+		poolAdd(&poolT2B, convPair{text: text, doc: append([]byte{}, doc...)}, i)
+	}
 	// the same text inside an enclosing document and under a root name
 	for _, form := range nestedForms {
 		nestedOne(c, "t2b", form, text, tree, !mayRefuse, wit)
@@ -388,7 +414,11 @@ func total(c *vm.Ctx, text string, class string) {
 	ref := refsnbt.Parse([]byte(text))
 	c.Cover("total.ref." + ref.Status.String())
 	outOfRange := ref.Status == refsnbt.Lenient && strings.HasPrefix(ref.Reason, "integer literal out of range")
+	nested := vm.HashStr("total-nested-pick", text)%8 == 0 // one text in eight is also put inside enclosing documents
 	if err != nil {
+		if nested {
+			nestedTotal(c, text, ref, err, nil, wit)
+		}
 		c.Cover("total.lib.error")
 		if ref.Status == refsnbt.OK {
 			c.Violation("total/agreement-text-rejected/"+vm.NormErr(err.Error()), "the parser rejects a text of the agreement grammar: "+err.Error(), wit())
@@ -406,6 +436,9 @@ func total(c *vm.Ctx, text string, class string) {
 	}
 	if tt != got.Tag {
 		c.Violation("total/tagtype-announced", fmt.Sprintf("TagType() announced %s, document is %s", refnbt.TagName(tt), refnbt.TagName(got.Tag)), wit())
+	}
+	if nested {
+		nestedTotal(c, text, ref, nil, got, wit)
 	}
 	switch ref.Status {
 	case refsnbt.Reject:
@@ -445,6 +478,9 @@ var handTexts = []string{
 	"[B; ]", "[ B;1b]", "[B ;1b]", "[B;1b ,2b]", "[ ]", "{ }", " { } ", "[I;]", "[L;]", "[B;]", "[I;-1,0,1]", "[\"a\",\"b\"]", "['a',\"b\"]", "[a,b]", "[a,1]", "[1.5,2.5]", "[1.5,2]", "[1f,1d]",
 	"-2147483649", "+2147483648", "-32769S", "+32768s", "-9223372036854775809l", "+128B", "-129B", "0128b", "-00129b", "99999999999", "{a:128b}", "{a:2147483648,b:1}", "[128b]", "[300b,400b]", "[2147483648,2147483649]", "[128b,1b]", "{128b:1b}",
 	"+1.5", "+0.5f", "+2.0D", "+0.0", "[+1.5,+2.5]", "{a:+1.5f}", "+1.5e1", "+.5",
+	"[B]", "[I]", "[L]", "[Bx,Ly]", "[I,L,B]", "[ B , I ]", "[B ,I]", "[B,1b]", "[Ba;1b]", "[B;1b,Bx]", "[B1,B2]", "[I1;1]", "{B:1,I:2,L:3}", "[L,[L;1l]]",
+	"[I;1I]", "[I;1i,2I]", "[I;+1I,-1i]", "[I;01I]", "[I;2147483648I]", "[I;1I,2]", "[L;1L,2l]", "[B;1B]", "[I; 1I , 2i ]", "[I;1b]", "[L;1I]", "[B;1I]",
+	"-0f", "-0d", "-0.0f", "-0.0d", "+0f", "-0F", "[-0f,0f]",
 	"{a:1}\n", "\n{a:1}", "{a:1} ,", "{a:1}{b:2}", "[1][2]", "\"a\"\"b\"", "a:b", "a,b", "a;b", ";", ":", ",",
 }
 
@@ -491,6 +527,15 @@ func mutateText(r *vm.Rand, s string) string {
 
 func run(c *vm.Ctx) {
 	c.EnableSpinWatch("total", 20)
+	lap := func(string) {}
+	if os.Getenv("VERIF_TIMING") != "" {
+		last := vm.CPUSeconds()
+		lap = func(what string) {
+			now := vm.CPUSeconds()
+			fmt.Fprintf(os.Stderr, "timing shard %d: %-28s %.2f cpu-s\n", c.Shard, what, now-last)
+			last = now
+		}
+	}
 	r := c.Rand("docs")
 	cfg := nbtgen.Default()
 	cfg.FiniteOnly = true
@@ -501,6 +546,7 @@ func run(c *vm.Ctx) {
 		c.Tick()
 		b2t2b(c, r, g, i)
 	}
+	lap("binary->text->binary")
 	tr := c.Rand("texts")
 	tcfg := cfg
 	tcfg.MaxNodes = 40
@@ -518,7 +564,12 @@ func run(c *vm.Ctx) {
 		}
 		t2b(c, tr, tg, i)
 	}
+	lap("text->binary")
 	floatEdges(c, c.Rand("float-edges"), c.Scale(4000, 80000))
+	lap("float edges")
+	floatForms(c, c.Rand("float-forms"), c.Scale(2400, 48000))
+	lap("float forms")
+	bigCounts(c, c.Rand("big-counts"))
 	if c.Shard == 0 {
 		longStrings(c)
 	}
@@ -526,6 +577,7 @@ func run(c *vm.Ctx) {
 		deepNesting(c)
 	}
 	// totality
+	lap("big counts, long strings, deep nesting")
 	mr := c.Rand("mutations")
 	if c.Shard == 0 {
 		for _, t := range handTexts {
@@ -578,4 +630,7 @@ func run(c *vm.Ctx) {
 		}
 		total(c, string(b), "random")
 	}
+	lap("totality")
+	concurrentConversions(c, c.Rand("concurrent"))
+	lap("concurrent conversions")
 }
